@@ -28,7 +28,7 @@ def handle (line : String) : String :=
           (some modelAns)
       else
         -- outside the property's quantifier: correspondence of the model only
-        answer input modelAns ["triv", "outside"]
+        answer input modelAns ["triv", if WF m then "outside:refs" else "outside:wf"]
   | ["raw", h] =>
     match Bytes.ofHexFast h with
     | some bs => answer "=" (resultText (fromExisting bs)) ["corr"]
